@@ -64,6 +64,19 @@ def unaligned_tail(t):
     return pos % align(t) != 0
 
 
+def has_str(t):
+    """a FlatString somewhere in the message type"""
+    if t[0] == 'str':
+        return True
+    if t[0] in ('vec', 'flex', 'arr'):
+        return has_str(t[1])
+    if t[0] == 'struct':
+        return any(has_str(f) for f in t[2])
+    if t[0] == 'enum':
+        return any(has_str(f) for v in t[4] for f in v)
+    return False
+
+
 def compositions(rng, n, k):
     """k random chunk sizes >= 1 (the pipe clips them)"""
     return [rng.choice([1, 1, 2, 3, 5, 8, 13, 64]) for _ in range(k)]
@@ -87,7 +100,8 @@ def stage1(shapes, seed, tier='quick'):
            [(sid, t) for sid, t in ms if padded_middle(t) and is_sized(t) and t[0] == 'enum'][:1] + \
            [(sid, t) for sid, t in ms if padded_tail(t) and t[0] == 'enum'][:2] + \
            [(sid, t) for sid, t in ms if padded_tail(t) and t[0] == 'struct'][:2] + \
-           [(sid, t) for sid, t in ms if unaligned_tail(t)][:2]
+           [(sid, t) for sid, t in ms if unaligned_tail(t)][:2] + \
+           [(sid, t) for sid, t in ms if has_str(t) and t[0] != 'str'][:2] + [(sid, t) for sid, t in ms if t[0] == 'str'][:1]
     prio = [x for i, x in enumerate(prio) if x not in prio[:i]]
     pick = prio + [x for x in pick if x not in prio][:nshapes - len(prio)]
     for sid, t in pick:
@@ -209,6 +223,15 @@ def stage2(shapes, s1_meta, s1_model, seed, tier='quick'):
                 p = rng.randrange(total) if rng.random() < 0.5 else rng.randrange(min(total, 12))
                 mut[p] = rng.choice([0, 1, 2, 0x7f, 0x80, 0xff, (mut[p] + 1) & 255, (mut[p] + 4) & 255])
                 variants.append(('mutated', bytes(mut) + (garbage(rng, 5) if rng.random() < 0.3 else b'')))
+        if has_str(t) and total:
+            # a complete message whose string length is cut by 1..3: the text then ends inside a multi-byte
+            # character when it ended in one (a content error, not a request for more input)
+            for p in range(min(sizes[0], 24)):
+                for d in (1, 2, 3):
+                    if stream[p] >= d:
+                        mut = bytearray(stream)
+                        mut[p] -= d
+                        variants.append(('lencut', bytes(mut)))
         variants.append(('oversize', bytes([0xff] * (2 * maxlen + 9))))
         variants.append(('zeros', bytes(4 * maxlen + 3)))
         for j, (vk, data) in enumerate(variants):
